@@ -131,7 +131,7 @@ def _op_local(op):
     return None
 
 
-def _trace_value(body, op, depth=0):
+def _trace_value(body, op, depth=0, upvar=None):
     """Follow moves / copies / refs of an operand back to a closure aggregate, a fn item constant or a coroutine
     aggregate. Returns ('closure', def, local) | ('fn', const) | ('coroutine', def, local) | None."""
     if depth > 12:
@@ -146,6 +146,8 @@ def _trace_value(body, op, depth=0):
         return None
     proj = [e for e in (p.get('p') or []) if e != '*']
     if proj:
+        if upvar is not None and p['l'] == 1 and len(proj) == 1 and isinstance(proj[0], dict) and proj[0].get('of') in ('closure', 'coroutine') and 'i' in proj[0]:
+            return upvar(body, proj[0]['i'], depth)
         return None
     defs = _defs_of(body, p['l'])
     if len(defs) != 1:
@@ -156,13 +158,13 @@ def _trace_value(body, op, depth=0):
         if rv['k'] == 'agg' and rv.get('agg') in ('closure', 'coroutine', 'coroutine_closure'):
             return ('closure' if rv['agg'] == 'closure' else 'coroutine', rv['def'], p['l'])
         if rv['k'] == 'use':
-            return _trace_value(body, rv['op'], depth + 1)
+            return _trace_value(body, rv['op'], depth + 1, upvar)
         if rv['k'] in ('ref', 'rawptr'):
-            return _trace_value(body, {'cp': {'l': rv['place']['l'], 'p': [e for e in (rv['place'].get('p') or []) if e != '*']}}, depth + 1)
+            return _trace_value(body, {'cp': {'l': rv['place']['l'], 'p': [e for e in (rv['place'].get('p') or []) if e != '*']}}, depth + 1, upvar)
         return None
     name, c = _callee(x)
     if name and re.search(r'(IntoFuture>?::into_future|Pin::<[^>]*>::new_unchecked|Pin::<[^>]*>::new|::as_mut|::deref_mut|::deref)$', name) and x['args']:
-        return _trace_value(body, x['args'][0], depth + 1)
+        return _trace_value(body, x['args'][0], depth + 1, upvar)
     return None
 
 
@@ -180,6 +182,8 @@ class Inliner:
                 self.children.setdefault(b['parent'], []).append(b)
         self.unknown_tops = sorted(p for p, b in self.bodies.items() if not _CLOSURE_SEG.search(p) and p not in known)
         self.spliced = {}  # unknown top path -> number of splices
+        self.devirt = {}  # closure def -> number of devirtualised splices
+        self.consumed = set()  # copies of coroutine bodies that were spliced at their only poll site
         self.log = []
         self.counter = 0
 
@@ -199,6 +203,24 @@ class Inliner:
                 out.append(c)
                 st.append(c['path'])
         return out
+
+    def upvar_value(self, body, i, depth=0):
+        """Value captured as upvar i of a closure / coroutine body: looked up at its (unique) creation site in the parent."""
+        par = self.bodies.get(body.get('parent') or '')
+        if par is None or depth > 10:
+            return None
+        sites = []
+        for blk in par['blocks']:
+            for st in blk['stmts']:
+                if st['k'] == 'assign' and st['rv']['k'] == 'agg' and st['rv'].get('def') == body['path']:
+                    sites.append(st['rv'])
+        if len(sites) != 1 or i >= len(sites[0]['fields']):
+            return None
+        v = _trace_value(par, sites[0]['fields'][i], depth + 1, self.upvar_value)
+        if v and v[0] in ('closure', 'coroutine'):
+            # the aggregate lives in the parent: the local index is meaningless here
+            return (v[0], v[1], None)
+        return v
 
     # ------------------------------------------------------------------ the splice
     def splice(self, caller, bi, callee, kind, force_args=None, stack=()):
@@ -271,6 +293,8 @@ class Inliner:
     def process(self, caller):
         n = 0
         region = set()  # blocks that came from a splice: devirtualise closure-parameter calls there
+        if '::{inl#' in caller['path']:
+            region = set(range(len(caller['blocks'])))
         depth = {}  # block -> splice depth
         changed = True
         while changed and n < MAX_SPLICES:
@@ -290,13 +314,18 @@ class Inliner:
                     target = self.bodies[name]
                     if target.get('coroutine'):
                         kind = 'poll'
-                        src = _trace_value(caller, t['args'][0]) if t['args'] else None
-                        a0 = {'cp': _place(src[2])} if src and src[0] == 'coroutine' else t['args'][0]
+                        src = _trace_value(caller, t['args'][0], 0, self.upvar_value) if t['args'] else None
+                        a0 = {'cp': _place(src[2])} if src and src[0] == 'coroutine' and src[2] is not None else t['args'][0]
                         force_args = [a0] + t['args'][1:]
+                        # the coroutine value was built by a spliced `async fn`: its body was copied under the caller;
+                        # splice that copy (it has this one creation site) and retire it
+                        if src and src[0] == 'coroutine' and src[1] in self.bodies and '::{inl#' in src[1]:
+                            target = self.bodies[src[1]]
+                            self.consumed.add(src[1])
                     elif '{closure' in name[len(top_path(name)):]:
                         kind = 'closure'
                 elif bi in region and c and re.search(r'^std::ops::(FnOnce::call_once|FnMut::call_mut|Fn::call)$', c.get('fn') or '') and not c.get('res') and len(t['args']) == 2:
-                    v = _trace_value(caller, t['args'][0])
+                    v = _trace_value(caller, t['args'][0], 0, self.upvar_value)
                     tup = _op_local(t['args'][1])
                     fields = None
                     if tup is not None:
@@ -310,6 +339,7 @@ class Inliner:
                             target = self.bodies[v[1]]
                             kind = 'closure'
                             force_args = [t['args'][0]] + list(fields)
+                            self.devirt[v[1]] = self.devirt.get(v[1], 0) + 1
                         elif v[0] == 'fn':
                             fc = v[1]
                             nm = fc.get('res') or fc.get('fn')
@@ -383,6 +413,28 @@ class Inliner:
                 if self.spliced.get(topf) and not used_elsewhere and not b.get('pub'):
                     drop |= names
                     changed = True
+        for c in sorted(self.consumed):
+            drop |= {c} | {x['path'] for x in self.descendants(c)}
+        # closures of known functions that were handed to spliced helpers and whose every invocation was spliced:
+        # the stand-alone body is dead code now (its creation site stays), rules must not look at it twice
+        for cdef in sorted(self.devirt):
+            if cdef in drop or cdef not in self.bodies or self.unknown(cdef):
+                continue
+            root = top_path(cdef)
+            fam = [b for p_, b in self.bodies.items() if top_path(p_) == root and p_ != cdef and not p_.startswith(cdef + '::') and p_ not in drop]
+            escapes = False
+            for b in fam:
+                for blk in b['blocks']:
+                    t = blk['term']
+                    if t['k'] != 'call':
+                        continue
+                    ops = list(t['args'])
+                    for a in ops:
+                        v = _trace_value(b, a, 0, self.upvar_value)
+                        if v and v[0] == 'closure' and v[1] == cdef:
+                            escapes = True
+            if not escapes:
+                drop |= {cdef} | {c['path'] for c in self.descendants(cdef)}
         if drop:
             self.raw['bodies'] = [b for b in self.raw['bodies'] if not (b['kind'] != 'Promoted' and b['path'] in drop)]
         self.dropped = sorted(drop)
